@@ -86,6 +86,12 @@ func runAppTest(c *child.Ctx, app string, cases []appCase) (map[int]appObs, stri
 	cmd := exec.Command(filepath.Join(c.BinDir, app+".test"), "-test.run", "^TestVerifExec$", "-test.count=1", "-test.timeout=20m")
 	cmd.Dir = dir
 	cmd.Env = append(os.Environ(), "VMON_CASES="+casesPath, "VMON_OUT="+outPath, "GORACE=halt_on_error=1 exitcode=66", "GOTRACEBACK=all")
+	// the check-time hooks (before every channel operation and writer call of the
+	// pipeline and the application) are active in two out of three executor runs
+	if prof := []string{"", "y200x2", "y60x1,s4u120"}[(len(cases)+cases[0].ID+c.Batch)%3]; prof != "" {
+		cmd.Env = append(cmd.Env, "VHOOK_PROFILE="+prof, fmt.Sprintf("VHOOK_SEED=%d", c.Seed*977+uint64(c.Batch)))
+		c.Count("executor_runs_with_hook_profile", 1)
+	}
 	var log bytes.Buffer
 	cmd.Stdout = &log
 	cmd.Stderr = &log
